@@ -93,6 +93,17 @@ func c17Scenario(clients []gridClient) *explore.Scenario {
 			sc := serverChoice{Vers: tls.VersionTLS13, Cert: certKind}
 			scfg := sc.config()
 			hk := &connHooks{AcceptCookie: true}
+			// the server's TLS 1.3 suite: its own choice, or each of the three suites when the hello offers it
+			// (the transcript of a retried handshake restarts with a message_hash of the suite's hash length)
+			if si := x.Choose("srv.suite13", 4); si != 0 && kind == 0 {
+				want := []uint16{tls.TLS_AES_128_GCM_SHA256, tls.TLS_AES_256_GCM_SHA384, tls.TLS_CHACHA20_POLY1305_SHA256}[si-1]
+				if !has16(h0.Suites, want) {
+					r.Obs = "suite-not-offered"
+					return
+				}
+				hk.Suite13 = want
+				what += fmt.Sprintf(" suite=%04x", want)
+			}
 			hk.Groups13 = func(cg, pref []tls.CurveID) []tls.CurveID { return []tls.CurveID{tls.CurveID(grp)} }
 			nHRR := 0
 			hk.Out = func(n int, t uint8, data []byte) []byte {
